@@ -204,6 +204,11 @@ def join(a, b):
         return ("bool", a[1] | b[1], a[2] if a[2] == b[2] else None)
     if a[0] == "map":
         return ("map", a[1] | b[1], a[2]) if a[2] == b[2] else ("top",)
+    if a[0] == "text":
+        return ("text", a[1] | b[1], a[2] if a[2] == b[2] else False)
+    if a[0] == "wrap":
+        j = join(a[1], b[1])
+        return ("wrap", j) if j is not None and j[0] != "top" else ("top",)
     if a[0] == "tuple":
         if len(a[1]) != len(b[1]):
             return ("top",)
@@ -233,6 +238,7 @@ class PestAnalysis:
         self.memo = {}
         self.stack = []
         self.obligations = {}  # key -> dict
+        self.text_cmps = []  # comparisons of pair text against string literals
         self.contexts = 0
 
     # ------------------------------------------------------------------
@@ -320,7 +326,7 @@ class PestAnalysis:
             if any(isinstance(e, dict) and e.get("dc") == "Some" for e in proj):
                 return ("pair", v[1])
             return v
-        if v[0] in ("pair", "pairs", "rule") and all(e == "deref" for e in proj):
+        if v[0] in ("pair", "pairs", "rule", "text") and all(e == "deref" for e in proj):
             return v
         if v[0] == "wrap":
             return v[1]
@@ -374,6 +380,10 @@ class PestAnalysis:
             v = ("tuple", vals) if any(x is not None for x in vals) else None
         elif "agg" in rv and rv.get("adt") == self.rule_enum:
             v = ("rule", frozenset([rv["variant"]]), None)
+        elif "agg" in rv and rv["agg"] == "adt" and rv.get("variant") in ("Ok", "Continue") and rv["fields"]:
+            inner = self.operand(fn, env, rv["fields"][0])
+            if inner is not None and inner[0] in ("pair", "pairs", "opt"):
+                v = ("wrap", inner)
         elif "agg" in rv and rv["agg"] == "adt" and rv.get("variant") in ("Some",) and rv["fields"]:
             inner = self.operand(fn, env, rv["fields"][0])
             if inner is not None and inner[0] == "pair":
@@ -399,6 +409,12 @@ class PestAnalysis:
                 v = ("bool", frozenset(not x for x in a[1]), ref)
         if v is not None and v[0] == "refto" and v[2][0] == "rule":
             v = v[2]
+        if v is None:
+            k = kind_of_type(fn.locals[d]["ty"])
+            if k == "pair":
+                v = ("pair", self.all_rules)
+            elif k == "opt":
+                v = ("opt", self.all_rules, True, True)
         if v is None:
             env.pop(d, None)
         else:
@@ -626,6 +642,27 @@ class PestAnalysis:
                             vals.add(neg)
                         return out(("bool", frozenset(vals), ("rule_eq", x[2], name, not neg) if x[2] is not None else None))
             return out(None)
+        # ---- text of a pair (case discipline of keyword comparisons)
+        if cal.endswith("Pair::<'i, R>::as_str"):
+            p = avs[0]
+            return out(("text", p[1] if p is not None and p[0] == "pair" else self.all_rules, False))
+        if avs and avs[0] is not None and avs[0][0] == "text":
+            if cal.endswith(("str>::to_lowercase", "str>::to_ascii_lowercase", "str>::to_uppercase", "str>::to_ascii_uppercase")):
+                return out(("text", avs[0][1], "lower" if "lower" in cal else "upper"))
+            if cal.endswith(("String::as_str", "as std::ops::Deref>::deref", "as std::convert::AsRef<str>>::as_ref", "as std::borrow::Borrow<str>>::borrow",
+                             "str>::trim", "String as std::clone::Clone>::clone", "str>::to_owned", "str>::to_string")):
+                return out(avs[0])
+        if cal.endswith("PartialEq for str>::eq") or cal.endswith("PartialEq<str> for std::string::String>::eq") or cal.endswith("str>::eq_ignore_ascii_case"):
+            lit = None
+            txt = None
+            for a, v in zip(args, avs):
+                if "k" in a and "str" in a["k"]:
+                    lit = a["k"]["str"]
+                elif v is not None and v[0] == "text":
+                    txt = v
+            if lit is not None and txt is not None:
+                self.text_cmps.append(dict(fn=fn, b=b, lit=lit, rules=txt[1], norm=txt[2], ignore_case=cal.endswith("eq_ignore_ascii_case"), chain=chain))
+            return out(None)
         # ---- wrappers that carry the tracked value through (`?`, clone, into_iter, by-ref adaptors)
         passthru = ("as std::ops::Try>::branch", "as std::iter::IntoIterator>::into_iter", "as std::clone::Clone>::clone", "std::clone::Clone::clone",
                     "std::iter::Iterator::by_ref", "Pairs::<'i, R>::peekable")
@@ -639,17 +676,34 @@ class PestAnalysis:
             if cl is not None:
                 self.analyze(cl, (None, ("pair", elems)), chain)
             return out(("map", avs[0][1], cl.name if cl else None))
+        if cal.endswith("Option::<T>::ok_or_else") or cal.endswith("Option::<T>::ok_or"):
+            o = avs[0]
+            if o is not None and o[0] == "opt":
+                return out(("wrap", ("pair", o[1])))
+            return out(None)
         # ---- local callees taking tracked values
         callee = self.prog.get(self.crate, cal) if c.get("via") in ("direct", "trait_impl", "trait_default") else None
         if callee is not None and callee.kind != "promoted":
-            if any(v is not None and v[0] in ("pair", "pairs", "opt") for v in avs) or cal.endswith("parse_inner"):
-                ret = self.analyze(callee, tuple(v if (v is not None and v[0] in ("pair", "pairs", "opt", "rule")) else None for v in avs), chain)
-                k = kind_of_type(dty)
-                return out(ret if ret is not None and ret[0] != "top" else None)
-            else:
-                # still visit callees that may contain panics on the path (no tracked arguments): once
-                self.analyze(callee, tuple(None for _ in avs), chain)
-                return out(None)
+            ret = self.analyze(callee, tuple(v if (v is not None and v[0] in ("pair", "pairs", "opt", "rule")) else None for v in avs), chain)
+            # an iterator lent by `&mut` may have been advanced arbitrarily by the callee
+            for r, ty in zip(raw, c["argtys"]):
+                if r is not None and r[0] == "refto" and ty.startswith("&mut"):
+                    cur = env.get(r[1])
+                    if cur is not None and cur[0] == "pairs":
+                        env = dict(env)
+                        env[r[1]] = ("pairs", self.all_states_from(cur[1]))
+            v = ret if ret is not None and ret[0] != "top" else None
+            if v is not None and v[0] in ("pair", "pairs", "opt") and kind_of_type(dty) is None:
+                v = ("wrap", v)
+            if tgt is None:
+                return []
+            e2 = dict(env)
+            if dl is not None:
+                if v is None:
+                    e2.pop(dl, None)
+                else:
+                    e2[dl] = v
+            return [(tgt, e2)]
         # calls that consume a &mut to a tracked iterator in unknown ways
         for r in raw:
             if r is not None and r[0] == "refto" and "&mut" in " ".join(c["argtys"]):
